@@ -283,3 +283,52 @@ def syncml_tree_docs(seed, T, n):
 
 def tline(c):
     return "t" + c["line"][1:]
+
+
+# ---- embedded documents (SyncML <Data> under Meta/Type application/vnd.syncml-devinf+wbxml) ----
+_DEVINF_WBXML = b"application/vnd.syncml-devinf+wbxml"
+
+
+def _mb(n):
+    out = [n & 0x7f]
+    n >>= 7
+    while n:
+        out.insert(0, (n & 0x7f) | 0x80)
+        n >>= 7
+    return bytes(out)
+
+
+def embedded_chain(depth, leaf=b"x"):
+    """a SyncML 1.1 document whose <Data> holds, as an opaque, a document built the same way (depth levels)"""
+    inner = leaf if depth == 0 else embedded_chain(depth - 1, leaf)
+    body = bytes([0x54, 0x5A, 0x00, 0x01, 0x53, 0x03]) + _DEVINF_WBXML + bytes([0x00, 0x01, 0x00, 0x00, 0x01, 0x4F, 0xC3]) \
+        + _mb(len(inner)) + inner + bytes([0x01, 0x01])
+    return bytes([0x02, 0x9F, 0x53, 0x6A, 0x00]) + body
+
+
+def embedded_refs(inner, k):
+    """a NUL-free SyncML 1.1 document: `inner` sits in the string table ("x"* ++ inner ++ "Type", unterminated) and
+    is referenced by k <Data> elements; Type is a LITERAL tag named by the tail of the table, its content an opaque"""
+    junk = b"x"
+    while True:
+        tbl = junk + inner + b"Type"
+        idx = len(junk) + len(inner)
+        if 0 not in _mb(len(tbl)) and 0 not in _mb(idx) and 0 not in _mb(len(junk)):
+            break
+        junk += b"x"
+    body = bytes([0x54, 0x5A, 0x44]) + _mb(idx) + bytes([0xC3, 0x23]) + _DEVINF_WBXML + bytes([0x01, 0x01])
+    body += (bytes([0x4F, 0x83]) + _mb(len(junk)) + bytes([0x01])) * k + bytes([0x01])
+    return bytes([0x02, 0x9F, 0x53, 0x6A]) + _mb(len(tbl)) + tbl + body
+
+
+def embedded_cases(seed, n_levels=3):
+    rng = Rng(seed, 77)
+    cases = []
+    for d in (0, 1, 2, 3, 5, 8, 13, 21):
+        cases.append(raw_case(embedded_chain(d), "embedded-chain", root_end=0))
+        cases.append(raw_case(embedded_chain(d, leaf=bytes([0x02, 0x9F, 0x53, 0x6A, 0x00, 0x14])), "embedded-chain", root_end=0))
+    doc = bytes([0x02, 0x9F, 0x53, 0x6A, 0x01, 0x78, 0x14])
+    for _ in range(n_levels):
+        doc = embedded_refs(doc, 1 + rng.below(4))
+        cases.append(raw_case(doc, "embedded-refs", root_end=0))
+    return cases
